@@ -116,7 +116,7 @@ def gen_case(ctx, i):
             start = int(r.integers(0, n))
             end = int(r.integers(start, n + 1))
     else:
-        n = int(r.integers(1, 11))
+        n = int(r.integers(1, 10))
         start, end = 0, n
     s0, e0 = (0 if start is None else start), (n if end is None else end)
     fault = None
@@ -124,7 +124,7 @@ def gen_case(ctx, i):
     if f_sel and e0 > s0:
         k = s0 + (i // 6) % (e0 - s0)  # round-robin over every index of the range
         fault = ["exc" if f_sel == 1 else "rank", int(k)]
-    return {"i": i, "kind": kind, "cap": cap, "batch": batch, "regime": regime, "start": start, "end": end, "n": n, "fault": fault, "instances_key": bool(kind == "labels" and r.random() < 0.3),
+    return {"i": i, "kind": kind, "cap": cap, "batch": batch, "regime": regime, "start": start, "end": end, "n": n, "fault": fault, "instances_key": bool(kind == "labels" and r.random() < 0.3), "rot": int(r.integers(0, 2)) if kind == "labels" else 0,
             "via_from_filename": bool(r.random() < 0.2 and fault is None), "sched_seed": int(r.integers(0, 2 ** 31))}
 
 
@@ -191,12 +191,15 @@ def build(case):
         n = case["n"]
         import sleap_io as sio
 
-        sub = sio.Labels(_STATE["lfs"][:n])
+        # successive readers in this process see label sets that share the Video objects at different positions of labels.videos
+        rot = int(case.get("rot") or 0)
+        sel = _STATE["lfs"][rot: rot + n]
+        sub = sio.Labels(sel)
         src = FaultyLabels(sub, n, fault[1], fault[0]) if fault else sub
         reader = providers.LabelsReader(src, q, instances_key=bool(case.get("instances_key")))
         stop = fault[1] if fault else n
         expected = []
-        for lf in _STATE["lfs"][:stop]:
+        for lf in sel[:stop]:
             name = "a" if lf.video is vids["a"] else "b"
             vi = sub.videos.index(lf.video)
             expected.append((lf.frame_idx, vi, (8, 10) if name == "a" else (6, 12), 10 * lf.frame_idx + (1 if name == "a" else 5)))
